@@ -319,6 +319,11 @@ class Check:
         print("VIOLATION property=%s replay=%s" % (self.pid, path), flush=True)
         print("  " + signature[:300], flush=True)
 
+    def enough(self):
+        """a check that has already reported this many violations stops exploring: the verdict is settled,
+        and a change that makes the code hang must not make the check run for hours"""
+        return len(self.violations) >= 25
+
     def finish(self):
         wall = time.time() - self.t0
         cov = self.cov
